@@ -3,12 +3,15 @@
     connection [w <> id], for the functions that do not append to a filter log.
 
     [isoq w st st'] ("quiet"): the five slab entries of [w], its requests waiting in
-    [notifications], its occurrences in the ready queue are literally unchanged; its requests
-    parked in the waiters of each filter log are the same requests, up to the order inside one
-    log's waiter queue ([Waiters::remove] of ANOTHER connection uses [swap_remove_back], which
-    moves the last entry of the queue into the hole).
-    [gfr st st'] is the global part: [connection_map] unchanged, every key keeps its client id,
-    the slab of filter logs still has an empty free list. *)
+    [notifications], its occurrences in the ready queue and its memberships in
+    [subscription_map] are literally unchanged; its requests parked in the waiters of each
+    filter log are the same requests, up to the order inside one log's waiter queue
+    ([Waiters::remove] of ANOTHER connection uses [swap_remove_back], which moves the last entry
+    of the queue into the hole).
+    [gfr st st'] is the global part: [connection_map] and the Incoming slab unchanged, every key
+    keeps its client id, every Outgoing keeps its client id and link, the slab of filter logs
+    still has an empty free list.
+    [fq id st st'] = [gfr] and [isoq w] for every [w <> id]: what a function serving [id] does. *)
 From Coq Require Import ZifyBool ZifyN ZifyNat Permutation.
 From Rumqtt Require Import Router.Model Router.InvLemmasBase Router.DataLogInv Router.WindowFrame Router.Window.
 
@@ -22,6 +25,10 @@ Definition waiters_at (st : rstate) (idx : N) : list (N * drequest) :=
 Definition waiting (st : rstate) (w idx : N) : list drequest := wsel w (waiters_at st idx).
 (** the occurrences of [w] in the ready queue *)
 Definition rdy (w : N) (st : rstate) : list N := filter (N.eqb w) (r_ready st).
+(** is [w] registered in subscription_map under filter [f] *)
+Definition smem (m : list (str * list N)) (w : N) (f : str) : bool :=
+  match al_get str_eqb f m with Some ids => set_mem N.eqb w ids | None => false end.
+Definition sub_mem (st : rstate) (w : N) (f : str) : bool := smem (r_submap st) w f.
 Definition client_at (st : rstate) (k : N) : option str := option_map c_client (slab_get (r_conns st) k).
 Definition NF (st : rstate) : Prop := sl_free (dl_native (r_datalog st)) = [].
 
@@ -33,13 +40,20 @@ Record isoq (w : N) (st st' : rstate) : Prop := {
   q_trk : slab_get (r_trackers st') w = slab_get (r_trackers st) w;
   q_notif : wsel w (r_notif st') = wsel w (r_notif st);
   q_wait : forall idx, Permutation (waiting st' w idx) (waiting st w idx);
-  q_ready : rdy w st' = rdy w st
+  q_ready : rdy w st' = rdy w st;
+  q_sub : forall f, sub_mem st' w f = sub_mem st w f
 }.
+
+(** client id and link number recorded in the Outgoing of key [k] *)
+Definition okey_at (st : rstate) (k : N) : option (str * N) :=
+  option_map (fun o => (o_client o, o_link o)) (slab_get (r_obufs st) k).
 
 Record gfr (st st' : rstate) : Prop := {
   g_cmap : r_cmap st' = r_cmap st;
   g_client : forall k, client_at st' k = client_at st k;
-  g_nf : NF st -> NF st'
+  g_nf : NF st -> NF st';
+  g_ibufs : r_ibufs st' = r_ibufs st;
+  g_okey : forall k, okey_at st' k = okey_at st k
 }.
 
 (** a function serving connection [id] *)
@@ -56,7 +70,9 @@ Lemma gfr_refl st : gfr st st.
 Proof. constructor; auto. Qed.
 Lemma gfr_trans a b c : gfr a b -> gfr b c -> gfr a c.
 Proof.
-  intros [A1 A2 A3] [B1 B2 B3]. constructor; [congruence | | auto]. intros k. now rewrite B2.
+  intros [A1 A2 A3 A4 A5] [B1 B2 B3 B4 B5]. constructor; [congruence | | auto | congruence |].
+  - intros k. now rewrite B2.
+  - intros k. now rewrite B5.
 Qed.
 Lemma fq_refl id st : fq id st st.
 Proof. split; [apply gfr_refl | intros; apply isoq_refl]. Qed.
@@ -87,6 +103,61 @@ Qed.
 Lemma wsel_none w l : Forall (fun x : N * drequest => fst x <> w) l -> wsel w l = [].
 Proof.
   induction 1 as [| [c rq] l H _ IH]; [reflexivity |]. cbn [fst] in H. now rewrite wsel_cons_other.
+Qed.
+
+Lemma set_mem_app w a b : set_mem N.eqb w (a ++ b) = set_mem N.eqb w a || set_mem N.eqb w b.
+Proof. induction a as [| x a IH]; cbn [app set_mem]; [reflexivity |]. now rewrite IH, orb_assoc. Qed.
+Lemma set_mem_add_other w id ids : w <> id -> set_mem N.eqb w (set_add N.eqb id ids) = set_mem N.eqb w ids.
+Proof.
+  intros H. unfold set_add. destruct (set_mem N.eqb id ids); [reflexivity |].
+  rewrite set_mem_app. cbn [set_mem]. replace (w =? id) with false by lia. now rewrite !orb_false_r.
+Qed.
+Lemma set_mem_del_other w id ids : w <> id -> set_mem N.eqb w (set_del N.eqb id ids) = set_mem N.eqb w ids.
+Proof.
+  intros H. unfold set_del. induction ids as [| x r IH]; [reflexivity |]. cbn [filter set_mem].
+  destruct (N.eqb_spec id x) as [<- | Hx]; cbn [negb set_mem].
+  - replace (w =? id) with false by lia. exact IH.
+  - now rewrite IH.
+Qed.
+
+Lemma smem_set m w path v f :
+  smem (al_set str_eqb path v m) w f = if str_eqb f path then set_mem N.eqb w v else smem m w f.
+Proof.
+  unfold smem. destruct (str_eqb f path) eqn:E.
+  - apply str_eqb_eq in E. subst. now rewrite al_get_set_eq.
+  - apply str_eqb_neq in E. now rewrite al_get_set_neq.
+Qed.
+(** registering / unregistering connection [id] under [path] does not change the membership of [w] *)
+Lemma smem_add_other m w id path f : w <> id ->
+  smem (match al_get str_eqb path m with
+        | Some ids => al_set str_eqb path (set_add N.eqb id ids) m
+        | None => al_set str_eqb path [id] m
+        end) w f = smem m w f.
+Proof.
+  intros H. destruct (al_get str_eqb path m) as [ids |] eqn:G; rewrite smem_set; destruct (str_eqb f path) eqn:E; try reflexivity.
+  - apply str_eqb_eq in E. subst. unfold smem. rewrite G. now apply set_mem_add_other.
+  - apply str_eqb_eq in E. subst. unfold smem. rewrite G. cbn [set_mem]. replace (w =? id) with false by lia. reflexivity.
+Qed.
+Lemma smem_del_other m w id path f : w <> id ->
+  smem (match al_get str_eqb path m with
+        | Some ids => al_set str_eqb path (set_del N.eqb id ids) m
+        | None => m
+        end) w f = smem m w f.
+Proof.
+  intros H. destruct (al_get str_eqb path m) as [ids |] eqn:G; [| reflexivity].
+  rewrite smem_set. destruct (str_eqb f path) eqn:E; [| reflexivity].
+  apply str_eqb_eq in E. subst. unfold smem. rewrite G. now apply set_mem_del_other.
+Qed.
+Lemma smem_remove_id m subs w id f : w <> id -> smem (submap_remove_id m subs id) w f = smem m w f.
+Proof.
+  intros H. unfold smem. induction m as [| [k ids] r IH]; cbn [submap_remove_id al_get]; [reflexivity |].
+  destruct (str_eqb f k); [| exact IH].
+  destruct (set_mem str_eqb k subs); [now apply set_mem_del_other | reflexivity].
+Qed.
+Lemma smem_add_all subs w id f : w <> id -> forall m, smem (submap_add_all m subs id) w f = smem m w f.
+Proof.
+  intros H. induction subs as [| p r IH]; intros m; cbn [submap_add_all]; [reflexivity |].
+  rewrite IH. now apply smem_add_other.
 Qed.
 
 Lemma rdy_app w st x : rdy w (set_r_ready st (r_ready st ++ [x])) = rdy w st ++ (if w =? x then [x] else []).
@@ -213,20 +284,23 @@ Ltac isoq_tac :=
   try (intros ?; reflexivity).
 
 Lemma gfr_same st st' :
-  r_cmap st' = r_cmap st -> r_conns st' = r_conns st -> r_datalog st' = r_datalog st -> gfr st st'.
-Proof. intros A B C. constructor; unfold client_at, NF; now rewrite ?A, ?B, ?C. Qed.
+  r_cmap st' = r_cmap st -> r_conns st' = r_conns st -> r_datalog st' = r_datalog st ->
+  r_ibufs st' = r_ibufs st -> r_obufs st' = r_obufs st -> gfr st st'.
+Proof. intros A B C D E. constructor; unfold client_at, NF, okey_at; now rewrite ?A, ?B, ?C, ?D, ?E. Qed.
 
 Lemma isoq_same w st st' :
   r_conns st' = r_conns st -> r_ibufs st' = r_ibufs st -> r_obufs st' = r_obufs st ->
   r_acks st' = r_acks st -> r_trackers st' = r_trackers st -> r_notif st' = r_notif st ->
-  r_datalog st' = r_datalog st -> r_ready st' = r_ready st -> isoq w st st'.
+  r_datalog st' = r_datalog st -> r_ready st' = r_ready st -> r_submap st' = r_submap st -> isoq w st st'.
 Proof.
-  intros A B C D E F G H. constructor; unfold waiting, waiters_at, rdy; rewrite ?A, ?B, ?C, ?D, ?E, ?F, ?G, ?H; reflexivity.
+  intros A B C D E F G H J. constructor; unfold waiting, waiters_at, rdy, sub_mem;
+    rewrite ?A, ?B, ?C, ?D, ?E, ?F, ?G, ?H, ?J; reflexivity.
 Qed.
 
 (** the components [isoq]/[gfr] look at *)
 Definition core (st : rstate) :=
-  (r_cmap st, r_conns st, r_ibufs st, r_obufs st, r_acks st, r_trackers st, r_notif st, r_datalog st, r_ready st).
+  (r_cmap st, r_conns st, r_ibufs st, r_obufs st, r_acks st, r_trackers st, r_notif st, r_datalog st, r_ready st,
+   r_submap st).
 Lemma fq_core id st st' : core st' = core st -> fq id st st'.
 Proof.
   unfold core. intros E. inversion E. split; [now apply gfr_same | intros w _; now apply isoq_same].
@@ -245,13 +319,21 @@ Lemma fq_put_conn id st c c' :
   slab_get (r_conns st) id = Some c -> c_client c' = c_client c -> fq id st (put_conn st id c').
 Proof.
   intros G E. split.
-  - constructor; [reflexivity | intros k; eapply client_at_put; eauto | auto].
+  - constructor; [reflexivity | intros k; eapply client_at_put; eauto | auto | reflexivity | reflexivity].
   - intros w Hw. isoq_tac.
 Qed.
 Lemma fq_put_tracker id st t : fq id st (put_tracker st id t).
 Proof. split; [now apply gfr_same | intros w Hw; isoq_tac]. Qed.
-Lemma fq_put_obuf id st o : fq id st (put_obuf st id o).
-Proof. split; [now apply gfr_same | intros w Hw; isoq_tac]. Qed.
+Lemma fq_put_obuf id st o o' :
+  slab_get (r_obufs st) id = Some o -> o_client o' = o_client o -> o_link o' = o_link o ->
+  fq id st (put_obuf st id o').
+Proof.
+  intros G E1 E2. split; [| intros w Hw; isoq_tac].
+  constructor; try reflexivity; [auto |]. intros k. unfold okey_at. rsimpl.
+  destruct (N.eq_dec id k) as [<- | Hne].
+  - rewrite (slab_get_put_occ _ _ _ _ G), G. cbn [option_map]. now rewrite E1, E2.
+  - now rewrite slab_get_put_other.
+Qed.
 Lemma fq_put_acks id st a : fq id st (put_acks st id a).
 Proof. split; [now apply gfr_same | intros w Hw; isoq_tac]. Qed.
 Lemma fq_ready_app id st : fq id st (set_r_ready st (r_ready st ++ [id])).
@@ -302,7 +384,7 @@ Proof. intros H. apply push_out_fields in H. rewrite H. apply fq_core. reflexivi
 Lemma dl_matches_fq id st t st' v : dl_matches st t = Ok (st', v) -> fq id st st'.
 Proof.
   unfold dl_matches. intros H. break_all H; inv_ok; try apply fq_refl.
-  all: split; [constructor; unfold client_at, NF; rs; auto | intros w Hw; constructor; unfold waiting, waiters_at, rdy; rs; auto].
+  all: split; [constructor; unfold client_at, NF, okey_at; rs; auto | intros w Hw; constructor; unfold waiting, waiters_at, rdy; rs; auto].
 Qed.
 
 Lemma waiting_insert_nofree st w (d : data) native' k idx :
@@ -325,7 +407,7 @@ Proof.
     destruct (slab_insert _ _) as [native' idx] eqn:Ei in H.
     apply bind_ok in H as (pf & _ & H). apply bind_ok in H as (cu & _ & H). inv_ok.
     split.
-    + constructor; unfold client_at, NF; rs; auto. intros _.
+    + constructor; unfold client_at, NF, okey_at; rs; auto. intros _.
       now destruct (slab_insert_nofree _ _ _ _ Hnf Ei) as (_ & Hf & _).
     + intros w Hw. constructor; rs; try reflexivity. intros j. unfold waiting at 1, waiters_at. rs.
       erewrite <- (waiting_insert_nofree st w _ native' i j Hnf); [reflexivity | | exact Ei]. reflexivity.
@@ -346,7 +428,7 @@ Proof.
   unfold park, native_get. intros H.
   destruct (slab_get (dl_native (r_datalog st)) (dr_idx rq)) as [d |] eqn:G; [| discriminate].
   cbn [bind] in H. inv_ok. split.
-  - constructor; unfold client_at, NF; rs; auto.
+  - constructor; unfold client_at, NF, okey_at; rs; auto.
   - intros w Hw. constructor; rs; try reflexivity. intros j. unfold waiting. rewrite (waiters_at_put _ _ _ _ _ G).
     destruct (N.eqb_spec j (dr_idx rq)) as [-> | Hne]; [| reflexivity].
     cbn [set_d_waiters d_waiters]. rewrite wsel_app, wsel_cons_other, wsel_nil, app_nil_r by congruence.
@@ -356,7 +438,7 @@ Qed.
 Lemma remove_waiters_for_id_fq st id f st' : remove_waiters_for_id st id f = Ok st' -> fq id st st'.
 Proof.
   unfold remove_waiters_for_id. intros H. inv_ok. split.
-  - constructor; unfold client_at, NF; rs; auto.
+  - constructor; unfold client_at, NF, okey_at; rs; auto.
   - intros w Hw. constructor; rs; try reflexivity. intros j. rewrite !waiting_items. rs.
     apply remove_waiter_items_other. congruence.
 Qed.
@@ -368,10 +450,17 @@ Proof. unfold update_next_client. intros H. break_all H; inv_ok; apply fq_core; 
 Lemma retain_update_fq id st t p pr : fq id st (retain_update st t p pr).
 Proof.
   unfold retain_update. destruct (p_retain p); [destruct (p_payload p) |]; try apply fq_refl.
-  all: split; [constructor; unfold client_at, NF; rs; auto | intros w Hw; constructor; unfold waiting, waiters_at, rdy; rs; auto].
+  all: split; [constructor; unfold client_at, NF, okey_at; rs; auto | intros w Hw; constructor; unfold waiting, waiters_at, rdy; rs; auto].
 Qed.
 
 (* ------------------------------------------------------------------ subscribe / unsubscribe *)
+Lemma fq_set_submap id st m :
+  (forall w f, w <> id -> smem m w f = smem (r_submap st) w f) -> fq id st (set_r_submap st m).
+Proof.
+  intros H. split; [now apply gfr_same |]. intros w Hw. constructor; unfold waiting, waiters_at, rdy, sub_mem; rs; try reflexivity.
+  intros f. now apply H.
+Qed.
+
 Lemma fq_core_r id a b c : fq id a b -> core c = core b -> fq id a c.
 Proof. intros H E. eapply fq_trans; [exact H | now apply fq_core]. Qed.
 Lemma fq_core_l id a b c : core b = core a -> fq id b c -> fq id a c.
@@ -382,14 +471,14 @@ Lemma prepare_filter_fq st id cu fidx path qos grp subid st' :
 Proof.
   unfold prepare_filter, get_conn, dbg_no_dups. intros H. cbv zeta in H.
   match type of H with context [slab_get (r_conns ?s) id] => set (st1 := s) in * end.
-  assert (T1 : core st1 = core st) by reflexivity.
+  assert (T1 : fq id st st1) by (apply fq_set_submap; intros w f Hw; now apply smem_add_other).
   destruct (slab_get (r_conns st1) id) as [conn |] eqn:G; [| discriminate]. cbn [bind] in H.
   match type of H with context [set_mem str_eqb path (c_subs ?c)] => set (conn1 := c) in * end.
   match type of H with context [put_conn ?s id conn1] => set (st2 := s) in * end.
   assert (T2 : core st2 = core st1) by reflexivity.
   assert (G2 : slab_get (r_conns st2) id = Some conn) by exact G.
   assert (C1 : c_client conn1 = c_client conn) by (unfold conn1; destruct subid; reflexivity).
-  eapply fq_core_l; [exact T1 |]. eapply fq_core_l; [exact T2 |].
+  eapply fq_trans; [exact T1 |]. eapply fq_core_l; [exact T2 |].
   destruct (set_mem str_eqb path (c_subs conn1)).
   - inv_ok. eapply fq_put_conn; eauto.
   - apply bind_ok in H as (st4 & H4 & H). apply bind_ok in H as (st5 & H5 & H). apply bind_ok in H as (_ & _ & H).
@@ -433,13 +522,16 @@ Proof.
   - cbv zeta in H.
     destruct (negb _) in H; [now apply IH in H |].
     match type of H with context [get_conn ?s id] => remember s as st1 eqn:Est1 end.
-    assert (K1 : core st1 = core st) by (subst st1; destruct (al_get str_eqb f (r_submap st)); reflexivity).
+    assert (K1 : fq id st st1).
+    { subst st1. destruct (al_get str_eqb f (r_submap st)) as [ids |] eqn:Ef; [| apply fq_refl].
+      apply fq_set_submap. intros w f' Hw. pose proof (smem_del_other (r_submap st) w id f f' Hw) as X.
+      rewrite Ef in X. exact X. }
     clear Est1. unfold get_conn in H.
     destruct (slab_get (r_conns st1) id) as [conn |] eqn:G; [| discriminate]. cbn [bind] in H.
-    destruct (negb _) in H; [apply IH in H; eapply fq_core_l; eauto |].
+    destruct (negb _) in H; [apply IH in H; eapply fq_trans; eauto |].
     apply bind_ok in H as (st4 & H4 & H). apply bind_ok in H as (st5 & H5 & H).
     apply IH in H. apply untrack_fq in H4. apply remove_waiters_for_id_fq in H5.
-    eapply fq_core_l; [exact K1 |].
+    eapply fq_trans; [exact K1 |].
     match type of H4 with fq _ (set_r_groups (put_conn _ _ ?c1) ?g) _ =>
       apply (fq_trans id st1 (put_conn st1 id c1)); [apply (fq_put_conn id st1 conn c1 G); reflexivity |];
       apply (fq_trans id _ (set_r_groups (put_conn st1 id c1) g)); [apply fq_core; reflexivity |]
@@ -478,11 +570,12 @@ Proof.
     - inv_ok. now destruct st0. }
   assert (EQ : r_notif st' = r_notif st /\ r_ready st' = r_ready st /\
                r_cmap st' = al_remove str_eqb (o_client o0) (r_cmap st) /\
-               exists q, dl_clean (r_datalog st) id = (r_datalog st', q)).
+               (exists q, dl_clean (r_datalog st) id = (r_datalog st', q)) /\
+               (exists subs, r_submap st' = submap_remove_id (r_submap st) subs id)).
   { rewrite F0 in H. clear F0 H0. rs.
     destruct (dl_clean (r_datalog st) id) as [dl q] eqn:Ec.
-    break_all H; inv_ok; rs; (split; [reflexivity | split; [reflexivity | split; [reflexivity | eauto]]]). }
-  destruct EQ as (E1 & E2 & E3 & q & E4).
+    break_all H; inv_ok; rs; (split; [reflexivity | split; [reflexivity | split; [reflexivity | split; eauto]]]). }
+  destruct EQ as (E1 & E2 & E3 & (q & E4) & (subs & E5)).
   split; [| split; [| right; eauto]].
   - intros w Hw. constructor.
     + rewrite F3. replace (w =? id) with false by lia. reflexivity.
@@ -493,5 +586,6 @@ Proof.
     + now rewrite E1.
     + intros idx. rewrite !waiting_items. eapply dl_clean_other; [| exact E4]. congruence.
     + unfold rdy. now rewrite E2.
-  - unfold NF. intros Hnf. destruct (dl_clean_other id id _ _ _ eq_refl E4) as [_ Hf]. congruence.
+    + intros f. unfold sub_mem. rewrite E5. now apply smem_remove_id.
+  - unfold NF. intros Hnf. assert (Hx : id <> id + 1) by lia. destruct (dl_clean_other (id + 1) id _ _ _ Hx E4) as [_ Hf]. congruence.
 Qed.
